@@ -18,7 +18,7 @@ RULE = ("valid-by-construction derivations of the RFC 9535 grammar (AST-first sa
         "(2) every spelling of numbers/strings from the pools, (3) code points U+0080..U+10FFFF as first and as later character of a "
         "member-name shorthand (quick: block boundaries + sample; thorough: all). A compile() failure is confirmed against the strict "
         "Earley recogniser + well-typedness + integer range before it is reported (a generator slip is an internal error, not a verdict); "
-        "1 in 8 accepted strings is also recognised as a self-check. Non-trivial: the rendering used at least one optional lexical "
+        "1 in 8 accepted strings is also recognised as a self-check. A long-sweep compiles 38 flat repetition forms (dotted / bracket / descendant chains, selector lists, && / || chains, long embedded queries and function arguments, long literals, names and blank runs) at 100 to 1000 (thorough: 3000) repetitions; each form's validity is confirmed by the recogniser on its 3-fold instance. Non-trivial: the rendering used at least one optional lexical "
         "alternative; distinct by string.")
 ASSUMPTIONS = ["strict ABNF transcription in vf/oracle/abnf.py (lark Earley) and vf/oracle/typing.py define validity",
                "numbers restricted to exactly representable values (|int| <= 2^53-1, finite floats)"]
@@ -82,6 +82,7 @@ def plan(tier, seed, nproc, scale):
     specs = [{"kind": "random", "seed": "%d/%d" % (seed, i), "n": total // shards} for i in range(shards)]
     specs.append({"kind": "ws-sweep", "seed": "%d/ws" % seed, "templates": 12 if tier == "quick" else 300})
     specs.append({"kind": "lex-sweep", "seed": "%d/lex" % seed})
+    specs.append({"kind": "long-sweep", "seed": "%d/long" % seed, "ks": [100, 300, 480, 520, 700, 1000] + ([2000, 3000] if tier != "quick" else [])})
     # code point sweep
     if tier == "quick":
         specs.append({"kind": "cp-sweep", "seed": "%d/cp" % seed, "mode": "sample"})
@@ -148,6 +149,8 @@ def run_shard(spec, rec):
         lex_sweep(jp, rec, R)
     elif kind == "cp-sweep":
         cp_sweep(jp, rec, R, spec)
+    elif kind == "long-sweep":
+        long_sweep(jp, rec, R, spec)
 
 
 TEMPLATES = [
@@ -273,6 +276,65 @@ def render_cp(form, c):
     if form == "desc":
         return "$.." + ch + "_"
     return "$[?@." + ch + "==$." + ch + ch + "]"
+
+
+# long flat queries: (name, prefix, repeated piece, separator, suffix). Valid for every repetition count >= 1 because the
+# grammar repeats that piece with *( ) - confirmed with the recogniser on the 3-fold form.
+LONG_FORMS = [
+    ("dotted", "$", ".a", "", ""), ("bracket-name", "$", "['a']", "", ""), ("index", "$", "[0]", "", ""), ("wild-dot", "$", ".*", "", ""), ("wild-bracket", "$", "[*]", "", ""),
+    ("descendant", "$", "..a", "", ""), ("descendant-bracket", "$", "..[0]", "", ""), ("spaced-dotted", "$", " .a", "", ""), ("non-ascii-dotted", "$", ".\u00e9", "", ""),
+    ("mixed-segments", "$", ".a[0]..*['b']", "", ""), ("slice-segments", "$", "[1:2]", "", ""),
+    ("index-list", "$[", "0", ",", "]"), ("name-list", "$[", "'a'", ", ", "]"), ("wild-list", "$[", "*", ",", "]"), ("slice-list", "$[", "::", ",", "]"), ("filter-list", "$[", "?@", ",", "]"),
+    ("and-chain", "$[?", "@", "&&", "]"), ("or-chain", "$[?", "@.a", "||", "]"), ("and-or-chain", "$[?", "@&&@.a", "||", "]"), ("cmp-chain", "$[?", "@.a==1", " && ", "]"),
+    ("not-chain", "$[?", "!@.a", "&&", "]"), ("call-chain", "$[?", "length(@)>1", "||", "]"), ("paren-chain", "$[?", "(@)", "&&", "]"),
+    ("filter-query-dotted", "$[?@", ".a", "", "]"), ("filter-root-bracket", "$[?$", "[0]", "", "==1]"), ("count-argument", "$[?count(@", ".*", "", ")>1]"),
+    ("length-argument", "$[?length(@", ".a", "", ")>1]"), ("match-argument", "$[?match(@", "['a']", "", ",'a')]"), ("comparison-right", "$[?1<@", "[0]", "", "]"),
+    ("nested-filter-query", "$[?@[?@", ".a", "", "]]"),
+    ("long-name", "$['", "a", "", "']"), ("long-escapes", "$[\"", "\\n", "", "\"]"), ("long-shorthand", "$.", "ab", "", ""), ("long-literal", "$[?@=='", "\\u00e9", "", "']"),
+    ("blank-run", "$", " ", "", ".a"), ("blank-run-bracket", "$[", "\n", "", "0]"), ("blank-run-filter", "$[?@", "\t", "", "]"), ("long-integer-zeros", "$[?@==1.", "0", "", "]"),
+]
+
+
+LOGICAL_CHAINS = {"and-chain", "or-chain", "and-or-chain", "cmp-chain", "not-chain", "call-chain", "paren-chain"}
+
+
+def long_sweep(jp, rec, R, spec):
+    for name, pre, piece, sep, suf in LONG_FORMS:
+        small = pre + sep.join([piece] * 3) + suf
+        valid, why = confirm_valid(small)
+        rec.monitor("oracle-confirmations")
+        if not valid:
+            rec.note("GENERATOR-SLIP (not a verdict): long form %s: %r is not valid: %s" % (name, small, why))
+            rec.feat("generator-slip")
+            continue
+        for k in spec["ks"]:
+            text = pre + sep.join([piece] * k) + suf
+            rec.wal({"compile": "%s x %d" % (name, k)})
+            try:
+                with guard(60):
+                    o = mon.observe(jp.compile, text)
+            except CaseTimeout:
+                rec.timeout("%s x %d" % (name, k))
+                continue
+            rec.monitor("M-compile")
+            rec.case(("long", name, k), True)
+            rec.feat("long:" + name)
+            if o[0] != "ok":
+                # smallest refused repetition count
+                lo, hi = 1, k
+                while lo < hi:
+                    mid = (lo + hi) // 2
+                    if mon.observe(jp.compile, pre + sep.join([piece] * mid) + suf)[0] != "ok":
+                        hi = mid
+                    else:
+                        lo = mid + 1
+                key = "refused-long:%s" % type(o[1]).__name__
+                if name in LOGICAL_CHAINS and isinstance(o[1], RecursionError) and lo >= 400:
+                    key = "logical-chain-recursion"   # listed finding (known_findings.json): one parser frame pair per && / || operator
+                rec.violation(key, {"form": name, "query": "%r + %r.join([%r] * %d) + %r" % (pre, sep, piece, lo, suf), "repetitions": lo,
+                                                                    "characters": len(pre + sep.join([piece] * lo) + suf), "observed": mon.describe_outcome(o)[:200]})
+                break
+    rec.sample({"long_forms": [f[0] for f in LONG_FORMS], "repetitions": spec["ks"]}, limit=1)
 
 
 def finish(m, tier):
